@@ -54,6 +54,10 @@ pub const LINKS: &[(&str, &str)] = &[
     ("reg-long", "[some text](d/3)"),
     // the link text runs over a line break (the link may be the last thing in its block)
     ("reg-wrapped", "[some\ntext](2)"),
+    // destinations with characters outside the BMP: the returned range counts UTF-16 units
+    ("wiki-astral", "[[n😀]]"),
+    ("wikip-astral", "[[n😀|t]]"),
+    ("reg-astral-dest", "[t](n😀)"),
 ];
 
 pub const HOSTS: &[&str] = &[
@@ -198,7 +202,7 @@ impl Engine for C13 {
         "C13"
     }
     fn rule(&self) -> String {
-        "documents = (lines before: none / LF / CRLF / non-ASCII / front-matter / CRLF list / heading) x (text before the link on its line: none / ASCII / 2-byte / astral / tab / emphasised non-ASCII) x 8 link forms (one whose text runs over a line break, also as the last thing in its block) x 12 hosts (single-line blocks, quoted ones, and three-line blocks with the link on the middle line), optionally with CRLF endings throughout; for every (line, UTF-16 character) of the note and two lines past its end: go-to-definition, prepareRename and rename must act iff the position is inside the link's source span (position == end of span is a don't-care), the prepareRename range must be the destination's span, every symbol line must be the heading's real line, and section/list code actions must be offered exactly on heading lines / on lines of lists. non-trivial = the document contains CRLF or non-ASCII text before the link".into()
+        "documents = (lines before: none / LF / CRLF / non-ASCII / front-matter / CRLF list / heading) x (text before the link on its line: none / ASCII / 2-byte / astral / tab / emphasised non-ASCII) x 11 link forms (one whose text runs over a line break, also as the last thing in its block; three whose destination has a character outside the BMP) x 12 hosts (single-line blocks, quoted ones, and three-line blocks with the link on the middle line), optionally with CRLF endings throughout; for every (line, UTF-16 character) of the note and two lines past its end: go-to-definition, prepareRename and rename must act iff the position is inside the link's source span (position == end of span is a don't-care), the prepareRename range must be a well-formed range inside the link span whose ends fall between characters (UTF-16 units, never inside a surrogate pair), every symbol line must be the heading's real line, and section/list code actions must be offered exactly on heading lines / on lines of lists. non-trivial = the document contains CRLF or non-ASCII text before the link".into()
     }
     fn bound(&self, tier: Tier) -> String {
         match tier {
@@ -248,7 +252,7 @@ impl Engine for C13 {
     fn run(&self, case: &str, _ctx: &Ctx) -> CaseResult {
         let text = build(case);
         let feats = features(case);
-        let lib = lib_of(&[("1", &text), ("2", "# two\n"), ("d/3", "# three\n")]);
+        let lib = lib_of(&[("1", &text), ("2", "# two\n"), ("d/3", "# three\n"), ("n😀", "# astral\n")]);
         let srv = match guarded(|| server(&lib, "")) {
             Ok(s) => s,
             Err(_) => return CaseResult { outcome: "panic-skip".into(), ..Default::default() },
@@ -299,7 +303,8 @@ impl Engine for C13 {
                     if inside {
                         if let GotoDefinitionResponse::Scalar(loc) = r {
                             let want = resolve("", &l.dest).unwrap_or_default();
-                            if key_of_uri(&loc.uri) != want {
+                            // (a non-ASCII key is percent-encoded in the URI: compare URIs as well)
+                            if key_of_uri(&loc.uri) != want && loc.uri != uri(&want) {
                                 push("definition", "target", format!("definition at ({},{}) went to {} instead of {}", line, ch, loc.uri, want));
                             }
                         }
@@ -322,6 +327,22 @@ impl Engine for C13 {
                             // exact columns are reported in the detail only)
                             let _ = (dl, dc, d2l, d2c);
                             let well_formed = got.0 <= got.1 && got.0 >= (sl, sc) && got.1 <= (el, ec);
+                            // "positions being counted as the LSP specifies": both ends are offsets in UTF-16
+                            // units that fall between two characters of their line, never inside a surrogate pair
+                            let on_boundary = |(ln, c): (usize, usize)| {
+                                lines.get(ln).map_or(false, |s| {
+                                    let mut u = 0;
+                                    let mut ok = c == 0;
+                                    for chr in s.chars() {
+                                        u += chr.len_utf16();
+                                        ok = ok || u == c;
+                                    }
+                                    ok
+                                })
+                            };
+                            if well_formed && !(on_boundary(got.0) && on_boundary(got.1)) {
+                                push("prepareRename", "range-boundary", format!("prepareRename at ({},{}) returned range {:?} (placeholder {:?}) with an end that is not between two characters of its line (UTF-16 units); the destination {:?} is at {:?}; text {:?}", line, ch, got, placeholder, l.dest, ((dl, dc), (d2l, d2c)), text));
+                            }
                             if !well_formed {
                                 push("prepareRename", "range", format!("prepareRename at ({},{}) returned range {:?} (placeholder {:?}), the destination {:?} is at {:?}; text {:?}", line, ch, got, placeholder, l.dest, ((dl, dc), (d2l, d2c)), text));
                             }
